@@ -205,21 +205,67 @@ def run(check):
                 scripts.setdefault(src, sc)
         inp = {"tag": "H%d" % k, "n": k + 1, "items": [{"tag": "H%d-i0" % k}, {"tag": "H%d-i1" % k}]}
         seq = [{"files": px.files(), "input": inp}, {"files": py.files(), "input": inp}, {"files": px.files(), "input": inp}]
+        if kind == 1 and k % 8 == 1:
+            # many refused preparations in between: trees whose sub-workflow's sub-workflow is refused
+            SELF = 'version: v0.2.0\ninput: {root: Item, objects: {Item: {id: Item, properties: {tag: {type: {type_id: string}}}}}}\nsteps:\n  l: {kind: foreach, workflow: a.yaml, items: [{tag: x}]}\noutputs:\n  success: {d: !expr "$.steps.l.outputs.success.data"}\n'
+            MAIN = SELF.replace("root: Item", "root: RootObject").replace("Item: {id: Item", "RootObject: {id: RootObject")
+            BADLEAF = SELF.replace("workflow: a.yaml", "workflow: bad.yaml")
+            BAD = 'version: v0.2.0\ninput: {root: Item, objects: {Item: {id: Item, properties: {tag: {type: {type_id: string}}}}}}\nsteps:\n  w: {plugin: {src: leaf_w, deployment_type: scripted}, input: {tag: !expr "$.input.nosuch"}}\noutputs:\n  success: {t: x}\n'
+            # (a file that loops over itself is not used here: given to Prepare directly - not through engine.Parse, which
+            # refuses it - it recurses until the stack overflows; see DESIGN 14, observations)
+            refused = [{"files": {"workflow.yaml": MAIN, "a.yaml": BADLEAF, "bad.yaml": BAD}, "input": inp}] * 7
+            seq = [seq[0]] + refused + [seq[2]]
+            what = "loop over sub.yaml / seven refused trees in between"
         hist.append(({"id": "c14-h%04d" % k, "mode": "seq", "files": {}, "scripts": scripts, "runs": [], "extra": {"sequence": seq}, "no_events": True}, what))
         # the other way round as well: what Y returns after X must be what Y returns when it comes first
-        seq2 = [seq[1], seq[0], seq[1]]
+        seq2 = [seq[1], seq[0], seq[1]] if len(seq) == 3 else [seq[0], seq[-1], seq[0]]
         hist.append(({"id": "c14-h%04dr" % k, "mode": "seq", "files": {}, "scripts": scripts, "runs": [], "extra": {"sequence": seq2}, "no_events": True}, what + " (reversed)"))
+    # one prepared workflow with an explicit output schema whose constraints depend on the input (minimum length, range), run
+    # with inputs that satisfy and violate them in turn: each run is judged on its own data, whatever earlier runs returned
+    constrained = []
+    for k in range(check.pick(8, 40)):
+        rng = random.Random(derive_seed(check.seed, "c14-constrained", k))
+        a = gen.plugin_step("a", Expr(In("tag")))
+        osch = {"success": {"schema": {"root": "R", "objects": {"R": {"id": "R", "properties": {"name": {"type": {"type_id": "string", "min": 3}}, "n": {"type": {"type_id": "integer", "max": 10}},
+                                                                                                 "a": {"type": {"type_id": "string"}}}}}}}}
+        prog = Program([a], {"success": {"name": Expr(In("tag")), "n": Expr(In("n")), "a": gen.tagref("a")}}, gen.BASE_INPUT, output_schema=osch)
+        docs = [("alice", 1, True), ("al", 2, False), ("bob", 3, True), ("carol", 50, False), ("x", 99, False), ("dave", 10, True)]
+        if k % 2:
+            rng.shuffle(docs)
+        if k % 4 >= 2:
+            docs = [d for d in docs if d[2]][:1] + docs  # a valid one first
+        case = {"id": "c14-c%04d" % k, "files": prog.files(), "scripts": gen.make_scripts([a], {}), "runs": [dict({"input": {"tag": t, "n": n}, "tag": "r%d" % q}, **({"parallel": True} if k % 3 == 2 else {})) for q, (t, n, ok) in enumerate(docs)]}
+        constrained.append((case, docs))
     stats = {"runs_checked": 0, "overlapped_groups": 0, "cancelled_runs": 0, "runs_after_failed_or_cancelled": 0, "max_overlap": 0}
     with harness.Runner() as rn:
         if not rn.hang_oracle_works():
             check.fail_broken("the hang oracle (Go runtime deadlock report) does not fire in this build")
         out = rn.run_cases(items + papi, per_case_timeout=120)
         hout = rn.run_cases([c for c, _w in hist], per_case_timeout=120)
+        cout = rn.run_cases([c for c, _d in constrained], per_case_timeout=120)
+    for case, docs in constrained:
+        o = cout.get(case["id"], {})
+        check.count()
+        res = o.get("result") or {}
+        runs = res.get("runs") or []
+        if "death" in o or res.get("prepare_err") or res.get("parse_err") or len(runs) != len(docs):
+            check.inconclusive_case(case["id"], str(o.get("death", {}).get("key") or res.get("prepare_err") or "runs missing"))
+            continue
+        by_tag = {r.get("tag"): r for r in runs}
+        for q, (t, n, ok) in enumerate(docs):
+            r = by_tag.get("r%d" % q) or {}
+            if ok and r.get("out_id") != "success":
+                check.report("runs@constrained-output:valid-refused", "explicit output schema (name >= 3 characters, n <= 10), run %d of %d with (%r, %d): expected success, got %s" % (q, len(docs), t, n, (r.get("err") or r.get("out_id"))[:200]), {"case": case})
+            elif not ok and r.get("out_id"):
+                check.report("runs@constrained-output:invalid-returned", "explicit output schema (name >= 3 characters, n <= 10), run %d of %d with (%r, %d): data that violates the schema was returned as output %r: %r (inputs in order: %s)" % (
+                    q, len(docs), t, n, r.get("out_id"), r.get("data"), [(d[0], d[1]) for d in docs]), {"case": case})
+        stats["constrained_output_runs"] = stats.get("constrained_output_runs", 0) + len(docs)
+        check.nontrivial("constrained|%s" % [d[2] for d in docs])
     def triple(r):
         return (r.get("out_id"), ref.denum(r.get("data")), r.get("err_type") if r.get("err") else None)
     for (case, what), (case_r, _w) in zip(hist[0::2], hist[1::2]):
         ra, rb = ((hout.get(c["id"], {}).get("result") or {}).get("runs") or [] for c in (case, case_r))
-        if len(ra) == 3 and len(rb) == 3:
+        if len(ra) == 3 and len(rb) == 3 and len((case.get("extra") or {}).get("sequence") or []) == 3:
             # X first (ra[0]) vs X after Y (rb[1]); Y first (rb[0]) vs Y after X (ra[1])
             for label, fresh, later in (("X", ra[0], rb[1]), ("Y", rb[0], ra[1])):
                 if triple(fresh) != triple(later):
@@ -229,10 +275,11 @@ def run(check):
         o = hout.get(case["id"], {})
         check.count()
         runs = (o.get("result") or {}).get("runs") or []
-        if "death" in o or len(runs) != 3:
+        if "death" in o or len(runs) != len(case["extra"]["sequence"]):
             check.inconclusive_case(case["id"], str(o.get("death", {}).get("key") or "sequence incomplete"))
             continue
-        first, again = triple(runs[0]), triple(runs[2])
+        first, again = triple(runs[0]), triple(runs[-1])
+        runs = [runs[0], runs[1], runs[-1]]
         if first != again:
             check.report("runs@history:result-differs", "workflow prepared and run, then another one, then the first again through one step registry (%s): first %r, again %r (%s)" % (
                 what, first, again, (runs[2].get("err") or runs[0].get("err") or "")[:200]), {"case": case})
